@@ -155,6 +155,19 @@ func runC15probe(args []string) {
 		r = c15Send(m, "GET", "/api/v1/model/actions/active", "", "")
 		emit(J{"kind": "probe", "name": "K5 active actions after a later no-op write", "body": short(r.Body)})
 	}
+	// U: Actions cells that pass the hex pattern but do not decode for the scenario's action count
+	for _, enc := range []string{"1:2", "10000000000000000", ":", ""} {
+		m := fresh()
+		text := strings.Replace(summary, "1122.881, 0, 40,", "1122.881, 0, "+enc+",", 1)
+		show("U POST /solutions with Actions cell ["+enc+"]", c15Send(m, "POST", "/api/v1/solutions", csv, text))
+		r := c15Send(m, "GET", "/api/v1/solutions/1-of-8", "", "")
+		i := strings.Index(r.Body, `"ActiveManagementActions"`)
+		if i < 0 {
+			i = 0
+		}
+		emit(J{"kind": "probe", "name": "U GET /solutions/1-of-8 for [" + enc + "]", "status": r.Status, "panicked": r.Panicked, "panic": r.Panic, "tail": short(r.Body[i:])})
+		show("U PATCH /model Encoding ["+enc+"]", c15Send(m, "PATCH", "/api/v1/model", js, `[{"Name":"Encoding","Value":"`+enc+`"}]`))
+	}
 	// suspicion S1: per-subcatchment PUT rebuilds the snapshot BEFORE the derived attributes -> stale Encoding in GET /model
 	{
 		m := fresh()
